@@ -23,6 +23,7 @@ structure WF (s : Img) : Prop where
   doff : 128 ≤ s.h.doff
   tabEnd : s.h.doff + 585 * s.rds.length ≤ s.h.dataOff
   dsize : (585 * s.rds.length : Int) ≤ s.h.dsize
+  tabRegion : s.h.doff + s.h.dsize ≤ s.h.dataOff
   sync : Synced s
   coh : MinCoh s.minIDs s.rds
   acct : s.h.dfree + (live s.rds).length = s.h.dtotal
@@ -45,7 +46,10 @@ theorem WF.load (s : Img) (W : WF s) (R : Ranges s) :
     loadContainer s.st =
       .ok { h := s.h, rds := s.rds, minIDs := populateMinIDs s.rds, st := s.st } :=
   Synced.load s W.sync R.hv W.magic W.version W.total (by have := W.doff; omega) W.dsize R.dv
-    (WF.all_loadable s W)
+    (WF.all_loadable s W) (by
+      have h1 := W.tabRegion
+      have h2 := R.hv.dataOff
+      unfold I64 at h2; unfold maxI64; omega)
 
 /-! ### rejected plans: where their calls land -/
 theorem plan_rejected_calls (s : Img) (op : Op) (now : Int)
